@@ -92,6 +92,24 @@ Section Queue.
         end
     end.
 
+  (* runner only: the `chosen` of every item popped, in order (same recursion as `run`): compared with the sequence of
+     _single_stage calls of the real run *)
+  Fixpoint run_trace (fuel : nat) (queue : list item) (seen : list K) : list (list M) :=
+    match fuel with
+    | O => []
+    | S f =>
+        match queue with
+        | [] => []
+        | (chosen, ignored, d) :: rest =>
+            let '(news, e) := stage chosen ignored in
+            let a := fold_left (step_new chosen ignored (S d)) news (mkAcc seen [] []) in
+            match e with
+            | Some _ => [chosen]
+            | None => chosen :: run_trace f (rest ++ a_items a) (a_seen a)
+            end
+        end
+    end.
+
   (* queue = deque((chosen, the others, 0) for chosen in permutations(range(n), len_patterns)) *)
   Definition init_queue (structures : list M) : list item :=
     map (fun c => (map snd c, map snd (filter (fun iy => negb (nat_mem (fst iy) (map fst c))) (number_from 0 structures)), O))
@@ -99,6 +117,8 @@ Section Queue.
 
   Definition exhaustive (structures : list M) (fuel : nat) : list (list M) * option pyexn * bool :=
     run fuel (init_queue structures) [].
+
+  Definition exhaustive_trace (structures : list M) (fuel : nat) : list (list M) := run_trace fuel (init_queue structures) [].
 
   (* an item that can stand in the queue: reached from the initial items by a chain of single stages *)
   Inductive reach (init : list item) : item -> Prop :=
@@ -122,3 +142,4 @@ Fixpoint tab2 {V : Type} (t : list (list Z * list Z * V)) (k1 k2 : list Z) (d : 
   match t with [] => d | (a, b, v) :: r => if zl_eqb k1 a && zl_eqb k2 b then v else tab2 r k1 k2 d end.
 Definition exh_eqb (model : list (list Z) * option pyexn * bool) (impl : list (list Z) * option pyexn) : bool :=
   list_eqb zl_eqb (fst (fst model)) (fst impl) && option_eqb pyexn_eqb (snd (fst model)) (snd impl) && snd model.
+Definition trace_eqb (model impl : list (list Z)) : bool := list_eqb zl_eqb model impl.
